@@ -11,6 +11,25 @@ FLAVOUR = {
     '1': 'a multi-step sequence of operations, or two cooperating code sites that each look fine on their own',
     '2': 'a crash or I/O fault at a particular point, a particular thread interleaving, or an unusual input / configuration (sizes, boundary values, empty or extreme keys and values)',
 }
+FOCUS = {
+ 'C01': ('src/versioning/version.rs (Version::get, get_overlapping_files), src/table_cache.rs', 'src/memtable.rs, src/key.rs, src/batch.rs'),
+ 'C02': ('src/versioning/version_set.rs (recover, log_and_apply) and DB::set_current_file', 'the open / recover path of src/db.rs, src/file_names.rs'),
+ 'C03': ('src/snapshots.rs, src/iterator.rs', 'src/compaction/state.rs, src/versioning/version_set.rs (live files, release_version)'),
+ 'C04': ('src/versioning/file_iterators.rs', 'src/iterator.rs, src/tables/block.rs, src/memtable.rs'),
+ 'C05': ('src/writers.rs and the writer queue / group commit in src/db.rs', 'src/utils/cache.rs, src/table_cache.rs, src/utils/linked_list.rs'),
+ 'C06': ('src/batch.rs, src/memtable.rs', 'build_group_commit_batch / make_room_for_write in src/db.rs, src/iterator.rs'),
+ 'C07': ('src/compaction/manifest.rs', 'src/versioning/version_builder.rs, src/versioning/version.rs'),
+ 'C08': ('src/tables/table_builder.rs, src/compaction/state.rs', 'src/versioning/version_set.rs, src/logs.rs'),
+ 'C09': ('waits, condition variables and Drop in src/db.rs', 'src/compaction/worker.rs, src/writers.rs'),
+ 'C10': ('src/versioning/version_builder.rs, src/versioning/file_metadata.rs', 'build_table_from_iterator / descriptors in src/db.rs, src/versioning/version_manifest.rs'),
+ 'C11': ('remove_obsolete_files / open in src/db.rs', 'src/versioning/version_set.rs (live files, release_version), src/compaction/state.rs'),
+ 'C12': ('LogWriter in src/logs.rs', 'LogReader in src/logs.rs, src/fs/fs_mem.rs'),
+ 'C13': ('src/tables/block_builder.rs, src/tables/block.rs, src/key.rs', 'Table::get / Table::open in src/tables/table.rs, src/tables/footer.rs, src/utils/bytes.rs'),
+ 'C14': ('src/filter_policy.rs', 'src/tables/filter_block.rs, src/tables/filter_block_builder.rs, the filter handling of src/tables/table.rs'),
+ 'C15': ('read_block_from_disk / open in src/tables/table.rs, src/tables/block.rs', 'src/versioning/version_manifest.rs, src/batch.rs, src/utils/crc.rs'),
+ 'C16': ('recover_wal_records in src/db.rs, maybe_reuse_manifest in src/versioning/version_set.rs', 'src/logs.rs'),
+ 'C17': ('open / destroy_database / Drop in src/db.rs', 'lock handling in src/fs/fs_disk.rs and src/fs/fs_mem.rs'),
+}
 TASK = """# Task
 
 You are helping to evaluate a verification effort for the Rust crate `raindb` (a LevelDB-style LSM-tree key-value store).
@@ -32,6 +51,7 @@ that survives review) that BREAKS this property while
   2. the existing test suite still passes completely (`cd {wt} && CARGO_TARGET_DIR={tgt} cargo test --offline --workspace`
      - three tests in `fs::fs_disk::os_file_system_tests` are known to be flaky, ignore those), and
   3. the breakage needs something specific to manifest - preferably {flavour} - and is NOT exposed at once by ordinary use.
+To spread the sample over the code base, look for your change primarily in: {focus} (elsewhere only if you find nothing suitable there).
 Keep the change small (a few lines, at most two sites). Do not touch tests, `src/verif.rs`, or anything guarded by
 `cfg(feature = "verif")`. Do not add `unsafe` tricks, randomness or sleeps to the crate; the change must look like an honest mistake.
 
@@ -69,5 +89,5 @@ for pid in (want or sorted(props)):
         os.makedirs(out, exist_ok=True)
         subprocess.run(['git', '-C', '/repo', 'worktree', 'remove', '--force', wt], capture_output=True)
         subprocess.run(['git', '-C', '/repo', 'worktree', 'add', '--detach', wt, 'HEAD'], check=True, capture_output=True)
-        open(base + '/TASK.md', 'w').write(TASK.format(wt=wt, out=out, tgt=tgt, title=p['title'], statement=p['statement'], pid=pid, flavour=FLAVOUR[k]))
+        open(base + '/TASK.md', 'w').write(TASK.format(wt=wt, out=out, tgt=tgt, title=p['title'], statement=p['statement'], pid=pid, flavour=FLAVOUR[k], focus=FOCUS[pid][int(k) - 1] if rnd >= 'f' else 'any file the property depends on'))
         print(sid, base + '/TASK.md')
